@@ -128,6 +128,11 @@ Section Sess.
       destruct (find_by_key C st k) as [[id s]|] eqn:EF; cbn [fst]; auto.
       destruct (refresh C st id (now C st + off)) as [st'|] eqn:ER; cbn [fst]; auto.
       eapply refresh_sinv; eauto.
+    - (* FindSess *)
+      destruct (find_by_key C st k) as [[id s]|]; cbn [fst]; auto.
+    - (* RenewById *)
+      destruct (refresh C st id (now C st + off)) as [st'|] eqn:ER; cbn [fst]; auto.
+      eapply refresh_sinv; eauto.
     - (* Wait *)
       cbn [fst]. split; cbn [sdat sidx nexts]; auto.
   Qed.
@@ -167,6 +172,14 @@ Section Sess.
     - pose proof (sstep_sinv (ss C st) o I) as X. destruct (sstep C (ss C st) o); exact X.
     - pose proof (authenticate_sinv st h ck renew I) as X.
       destruct (authenticate C st h ck renew) as [[c p] st']. exact X.
+    - (* ProbeRace: a sign-out, then a (failing) refresh *)
+      destruct (find_by_key C (ss C st) k) as [[id s]|]; [|exact I].
+      pose proof (sstep_sinv (ss C st) (ExpireSess C k) I) as J.
+      destruct (refresh C (fst (sstep C (ss C st) (ExpireSess C k))) id
+                  (now C (fst (sstep C (ss C st) (ExpireSess C k))) + RenewSessionTime)) as [x|] eqn:ER.
+      + pose proof (refresh_sinv _ _ _ _ J ER) as X.
+        destruct (aget N.eqb (s_user C s) (users C (ps C st))) as [[|]|]; exact X.
+      + exact J.
   Qed.
 
   Lemma run_sinv ops : forall st, sinv (ss C st) -> sinv (ss C (run C st ops)).
@@ -199,4 +212,27 @@ Section Sess.
         apply Z.ltb_lt in B, E.
         unfold find_by_key, get_idx, get_dat, live in EF. rewrite A, B, D, E in EF. discriminate.
   Qed.
+
+  (** RenewSession re-reads the session by id: renewing a session that was signed out, or whose
+      record has expired, fails and changes nothing - a held session object cannot revive it *)
+  Theorem renew_after_signout_fails st k id s off :
+    find_by_key C st k = Some (id, s) ->
+    let st1 := fst (sstep C st (ExpireSess C k)) in
+    sstep C st1 (RenewById C id off) = (st1, 4%N).
+  Proof.
+    intros EF st1. unfold st1. cbn [sstep]. rewrite EF. cbn [fst].
+    unfold refresh, get_dat. cbn [sset sdat]. rewrite (aget_adel_same N.eqb). reflexivity.
+  Qed.
+
+  Theorem renew_expired_fails st id s e0 off :
+    aget N.eqb id (sdat C st) = Some (s, e0) -> (e0 <= now C st)%Z ->
+    sstep C st (RenewById C id off) = (st, 4%N).
+  Proof.
+    intros A L. cbn [sstep]. unfold refresh, get_dat, live. rewrite A.
+    replace (Z.ltb (now C st) e0) with false by (symmetry; apply Z.ltb_ge; lia). reflexivity.
+  Qed.
+
+  Theorem renew_unknown_fails st id off :
+    aget N.eqb id (sdat C st) = None -> sstep C st (RenewById C id off) = (st, 4%N).
+  Proof. intros A. cbn [sstep]. unfold refresh, get_dat. rewrite A. reflexivity. Qed.
 End Sess.
